@@ -148,8 +148,16 @@ Definition sdom_rows (g : graph) (e : nat) : list (list nat) :=
 Definition reach_rows (g : graph) : list (list nat) :=
   map (fun u => filter (fun v => reach_plus_ref g u v) (seq 0 (length g))) (seq 0 (length g)).
 
+(* immediate post dominators of all nodes from the table of post-dominator rows *)
 Definition ipdom_list (g : graph) (x : nat) : list (option nat) :=
-  map (ipdom_ref g x) (seq 0 (length g)).
+  let rows := pdom_rows g x in
+  map (fun w =>
+         let sp := filter (fun d => negb (d =? w)) (nth w rows []) in
+         find (fun d => forallb (fun d' => mem d' (nth d rows [])) sp) sp)
+      (seq 0 (length g)).
+
+Definition mask_opt (m : list bool) (l : list (option nat)) : list (option nat) :=
+  map (fun p : bool * option nat => if fst p then snd p else None) (combine m l).
 
 (* every graph on n nodes with duplicate-free sorted successor lists: (2^n)^n graphs *)
 Fixpoint sublists (l : list nat) : list (list nat) :=
